@@ -71,7 +71,7 @@ def read_meta_table(ctx):
                 break
     if kvar is None:
         raise AnalysisError("osu meta reader: key/value split statement not found")
-    branches = C.eq_chain(fn.node.body, lambda n: isinstance(n, ast.Name) and n.id == kvar)
+    branches = C.eq_chain(fn.node.body, lambda n: isinstance(n, ast.Name) and n.id == kvar, lambda e: M.lit(fn.mod, e, fn.cls))
     res = _resolver(M, fn.mod, fn.cls)
     table = {}
     others = []
